@@ -1,5 +1,7 @@
 import Mimium.Proofs.RustGen
+import Mimium.Proofs.MirExample
 import Mimium.Proofs.MirLayout
+import Mimium.Proofs.MirCfg
 /-!
 # C18 — generated Rust code behaves like the VM   (level: PARTIAL)
 
@@ -29,7 +31,15 @@ What is a theorem here, for ALL inputs, is the logic the generated code rests on
   step function wherever the host's delay guards do not fire; `C18_zero_delay_grows_only_storage`: the one place
   where it differs from the VM inside bounds (a zero-length delay) changes no output and no cursor.
 
-NOT proved: rustgen's per-instruction lowering (`op k` is opaque), the ABI packing, closures, memory handles, rustc.
+* `C18_cfg_run_is_mir_run` / `C18_fn_run_is_dispatch_loop` (added with the MIR semantics `Model/Mir.lean`) — `op k` need no
+  longer be opaque: instantiating the abstract `Sem` with the MIR instruction semantics (`Mir.mirSem`: `op k` = instruction
+  `k` of the function, calls run the callee, state instructions are `vmStep`), the emitted dispatch loop computes, for every
+  function, every state and every fuel, exactly what the block-step MIR semantics (`Mir.runBlocksM`, the one that is run
+  against the VM on every generated program) computes; and one call of a function in the MIR semantics (`Mir.runFn`) IS the
+  dispatch loop of its control skeleton started in the entered frame.
+
+NOT proved: rustgen's per-instruction lowering (that the TEXT emitted for instruction `k` means `Mir.stepIns`), the ABI
+packing, closures, memory handles, rustc.
 -/
 namespace Mimium.RustGen
 open Mimium.StateMachine
@@ -256,4 +266,62 @@ example :
     noZeroDelay ops = true ∧ (vmRun ⟨0, List.replicate 8 0⟩ ops).isSome = true := by
   decide +kernel
 
+/-! ### the abstract instruction semantics instantiated with the MIR semantics -/
+section MirInstance
+open Mimium.Mir
+
+/-- The dispatch loop emitted for a function's control skeleton, run over the MIR instruction semantics, computes what the
+block-step MIR semantics computes on the function's blocks: same returned words and machine state, an error of the MIR
+run exactly where the loop panics, the same configuration when the fuel runs out — every program, function, state, fuel. -/
+theorem C18_cfg_run_is_mir_run (callF : CallF) (P : Prog) (f : Fn) (hc : f.cacheOk) (body : Body)
+    (h : encode f.cfg = some body) (n : Nat) (s : MSt) :
+    runBody (mirSem callF P f) body n s = (runBlocksM callF P f n 0 0 s).toOut := by
+  rw [C18_dispatch_loop_eq_cfg (mirSem callF P f) f.cfg body h n s, runBlocksM_eq_runCfg callF P f hc n 0 0 s]
+
+/-- One call of function `fi` in the MIR semantics is the emitted dispatch loop of its skeleton, run from the entered frame
+with the callee semantics of one unit less fuel. -/
+theorem C18_fn_run_is_dispatch_loop (P : Prog) (n fi : Nat) (f : Fn) (hf : P.fns[fi]? = some f) (hc : f.cacheOk) (body : Body)
+    (h : encode f.cfg = some body) (ws : List UInt64) (clo : Option Nat) (g : Glob) (st : St) (tr : List Layout.Access) :
+    runFn P (n + 1) fi ws clo g st tr =
+      match runBody (mirSem (runFn P n) P f) body (f.blocks.length + 1)
+          ⟨(enterFrame f fi clo g ws).1, (enterFrame f fi clo g ws).2, st, tr⟩ with
+      | .ret (.ok (out, s)) => .ok (out, s.g, s.st, s.tr)
+      | .ret (.error e) => .error e
+      | .panic => (match runBlocksM (runFn P n) P f (f.blocks.length + 1) 0 0
+                      ⟨(enterFrame f fi clo g ws).1, (enterFrame f fi clo g ws).2, st, tr⟩ with
+                    | .err e => .error e
+                    | _ => .error .fuel)
+      | .more _ _ _ => .error .fuel := by
+  rw [C18_cfg_run_is_mir_run (runFn P n) P f hc body h]
+  simp only [runFn, hf]
+  cases runBlocksM (runFn P n) P f (f.blocks.length + 1) 0 0
+      ⟨(enterFrame f fi clo g ws).1, (enterFrame f fi clo g ws).2, st, tr⟩ with
+  | ret r => cases r with
+    | ok v => rfl
+    | error e => rfl
+  | err e => rfl
+  | more bb pred s => rfl
+
+end MirInstance
+
+
+/-! ### non-vacuity on a real dump (`Proofs/MirExample.lean`), kernel-evaluated -/
+section MirExample
+open Mimium.Mir
+
+/-- the generator accepts the control skeleton (operand checks included) of every function of the example; all are forward and nested -/
+example : (exProg.fns.map fun f => (encode f.cfg).isSome && forward f.cfg && nested f.cfg) = [true, true, true, true, true, true] := by
+  decide +kernel
+
+/-- so for its `dsp` (an `if` between two stateful calls, a closure call) the emitted dispatch loop IS the MIR run, whatever the callees do -/
+example (callF : CallF) :
+    exProg.fns[5]? = some exProg_dsp ∧
+    ∃ body, encode exProg_dsp.cfg = some body ∧
+      ∀ n s, runBody (mirSem callF exProg exProg_dsp) body n s = (runBlocksM callF exProg exProg_dsp n 0 0 s).toOut := by
+  refine ⟨rfl, ?_⟩
+  have henc : (encode exProg_dsp.cfg).isSome = true := by decide +kernel
+  obtain ⟨body, hb⟩ := Option.isSome_iff_exists.mp henc
+  exact ⟨body, hb, fun n s => C18_cfg_run_is_mir_run callF exProg _ (Fn.build_cacheOk _ _ _ _ _ _ _ _) body hb n s⟩
+
+end MirExample
 end Mimium.RustGen
